@@ -15,7 +15,7 @@ export const KEY_FORMS = [
   (i) => ({ src: `$d${i}`, key: `$d${i}` }),
   (i) => ({ src: `_u${i}`, key: `_u${i}` }),
 ];
-export const VALUE_TYPES = ['string', 'number', 'boolean', 'string[]', '{ x: 1 }', '() => void', 'Date', "'a' | 'b'", 'string | number', 'any'];
+export const VALUE_TYPES = ['string', 'number', 'boolean', 'string[]', '{ x: 1 }', '() => void', 'Date', "'a' | 'b'", 'string | number', 'any', 'string | undefined', 'undefined | number[]', '(boolean | undefined)', 'Date | null | undefined'];
 
 export function randomPropMap(rng, n) {
   const out = [];
@@ -310,7 +310,7 @@ export function encodeEmits(rng, names, out) {
     if (r === 1) { const k = fresh('N'); decl(`type ${k} = ${ns.map(q).join(' | ')};`); return k; }
     const k1 = fresh('N'), k2 = fresh('N'); decl(`type ${k1} = ${q(ns[0])};`); decl(`type ${k2} = ${[k1, ...ns.slice(1).map(q)].join(' | ')};`); return k2;
   };
-  const form = rng.pick(['fnType', 'unionOfFnTypes', 'callSigLiteral', 'callSigInterface', 'extendsChain', 'propertySyntax', 'aliasOfFn', 'intersection', 'exportedInterface', 'mixedDuplicates', 'extendsAlias', 'extendsAliasChain', 'extendsPropertyAlias', 'mergedCallSigInterface', 'mergedPropertyInterface', 'methodSyntax', 'methodSyntaxInterface', 'intersectionOfFnTypes', 'intersectionWithFnTail', 'unionOfFnAliasesAndInterface', 'interfaceExtendsFnAliases']);
+  const form = rng.pick(['fnType', 'unionOfFnTypes', 'callSigLiteral', 'callSigInterface', 'extendsChain', 'propertySyntax', 'aliasOfFn', 'intersection', 'exportedInterface', 'mixedDuplicates', 'extendsAlias', 'extendsAliasChain', 'extendsPropertyAlias', 'mergedCallSigInterface', 'mergedPropertyInterface', 'methodSyntax', 'methodSyntaxInterface', 'intersectionOfFnTypes', 'intersectionWithFnTail', 'unionOfFnAliasesAndInterface', 'interfaceExtendsFnAliases', 'computedKeyPropertySyntax', 'computedKeyInterfaceExtends']);
   out.ops.push(form);
   switch (form) {
     case 'fnType': return `(e: ${nameUnion(names)}, ...args: any[]) => void`;
@@ -373,6 +373,15 @@ export function encodeEmits(rng, names, out) {
     // intersections whose members are inline function types
     case 'intersectionOfFnTypes': { const k = Math.max(1, Math.floor(names.length / 2)); const a = names.slice(0, k), b = names.slice(k); return [`((e: ${nameUnion(a)}) => void)`, ...b.map((x) => `((e: ${q(x)}, v: number) => void)`)].join(' & '); }
     case 'intersectionWithFnTail': { const k = Math.max(1, Math.floor(names.length / 2)); const a = names.slice(0, k), b = names.slice(k); const base = fresh('E'); decl(`type ${base} = { ${a.map((x) => `(e: ${q(x)}): void`).join('; ')} };`); return b.length ? `${base} & ((e: ${nameUnion(b)}) => void)` : `${base} & {}`; }
+    // property names written as computed string-literal keys are static names too
+    case 'computedKeyPropertySyntax': return `{ ${names.map((x, i) => (i % 2 === 0 ? `[${q(x)}]: [v: string]` : `${/^[A-Za-z_$][\w$]*$/.test(x) ? x : q(x)}: []`)).join('; ')} }`;
+    case 'computedKeyInterfaceExtends': {
+      const k = Math.max(1, Math.floor(names.length / 2)); const a = names.slice(0, k), b = names.slice(k);
+      const base = fresh('E'), top = fresh('E');
+      decl(`interface ${base} { ${a.map((x) => `['${x}']: [value: number]`).join('; ')} }`);
+      decl(`interface ${top} extends ${base} { ${b.map((x, i) => (i % 2 === 0 ? `[${q(x)}]: []` : `${q(x)}: []`)).join('; ')} }`);
+      return top;
+    }
     case 'mixedDuplicates': return `{ ${[...names, names[0]].map((x) => `(e: ${q(x)}): void`).join('; ')} }`;
     default: throw new Error(form);
   }
